@@ -132,6 +132,8 @@ def run(pid, tier, seed):
                 jr = pv[rt]
                 o = row["outs"][t_i][rt]
                 counts["point_checks"] += jr["n"]
+                if o.get("k") == "expr":
+                    counts["identity_" + jr["idv"]] = counts.get("identity_" + jr["idv"], 0) + 1
                 tags = list(jr["tags"])
                 if "drift" in tags:
                     counts["drift"] += 1
